@@ -24,7 +24,18 @@ func (r ConditionalRule) String() string {
 }
 
 func (r ConditionalRule) Negate() Rule {
+	if r.ElseIsDefined() {
+		return NewIfThenElseConditional(!r.Negated, r.IfRule(), r.ThenRule(), r.ElseRule())
+	}
 	return NewConditional(!r.Negated, r.IfRule(), r.ThenRule())
+}
+
+// ¬((ifRule -> thenRule) ∧ (¬ifRule -> elseRule)) <==> (ifRule ∧ ¬thenRule) ∨ (¬ifRule ∧ ¬elseRule)
+func (r ConditionalRule) NegatedIfThenElse() OrRule {
+	return NewOr(false, []Rule{
+		NewAnd(false, []Rule{r.IfRule(), r.ThenRule().Negate()}),
+		NewAnd(false, []Rule{r.IfRule().Negate(), r.ElseRule().Negate()}),
+	})
 }
 
 
